@@ -182,6 +182,16 @@ class Evaluator:
             if len(p['ps']) == 0:
                 return True
             raise Unanalysable('multi-field tuple struct pattern', p)
+        if k == 'Struct':
+            path = p['res'].get('path') or ''
+            name = path.split('::')[-1]
+            if isinstance(v, tuple) and v and v[0] == 'cf':
+                if v[1] != name:
+                    return False
+                if len(p['fields']) == 1:
+                    return self.match(p['fields'][0]['p'], v[2], env)
+                return True
+            raise Unanalysable('struct pattern on %r' % (v,), p)
         raise Unanalysable('pattern kind ' + k, p)
 
     def variant_is(self, v, name):
@@ -458,6 +468,10 @@ class Evaluator:
         if callee is None:
             raise Unanalysable('indirect call', e)
         args = [self.eval(a, env) for a in e['args']]
+        if callee.endswith('try_trait::Try::branch') and len(args) == 1 and isinstance(args[0], Res):
+            return ('cf', 'Continue', args[0].payload) if args[0].ok else ('cf', 'Break', Res(False, args[0].payload))
+        if callee.endswith('try_trait::FromResidual::from_residual') and len(args) == 1:
+            return args[0]
         return self.apply_fn(callee, args, e, env)
 
     def e_MethodCall(self, e, env):
@@ -481,7 +495,8 @@ class Evaluator:
             if name == 'is_range_free':
                 return b.q_is_range_free(args[1], args[2])
             if name in ('put', 'fput', 'push', 'shift', 'put_digit_at'):
-                b.ops.append((name,) + tuple(bytes(x) if isinstance(x, (bytes, bytearray)) else x for x in args[1:]))
+                b.ops.append((name,) + tuple(bytes(x) if isinstance(x, (bytes, bytearray)) else (bytes(x.digits) if isinstance(x, Builder) else x)
+                                               for x in args[1:]))
                 return Res(True, ())
             if name == 'freeze':
                 b.frozen = True
